@@ -66,6 +66,7 @@ impl Case {
             faults: self.faults.clone(),
             mount_boundary: false,
             entropy: 3,
+            umask: None,
         }
     }
 }
@@ -488,6 +489,7 @@ pub fn gen_case(rng: &mut Rng) -> Case {
         0 | 1 => "cycle",
         2 | 3 => "diamond",
         4..=7 => "fault",
+        8..=10 => "nested",
         _ => "lookup",
     };
     let mut g = Gen {
@@ -563,6 +565,64 @@ pub fn gen_case(rng: &mut Rng) -> Case {
                 ));
                 prog = "include \"selfie\"; s".to_string();
             }
+        }
+        "nested" => {
+            // modules that import data and other modules themselves: their directives are
+            // resolved relative to *their* file, and each module sees only its own data
+            let dir = expand(&eff_libs[0], CWD);
+            let sub = *g.rng.pick(&["sub", "./data", "."]);
+            let subdir = lex_join(&dir, sub);
+            let n_mod_data = 1 + g.rng.usize(2);
+            let mut header = String::new();
+            let mut parts = Vec::new();
+            let mut exp_mod = Vec::new();
+            for k in 0..n_mod_data {
+                let tag = g.tag(&format!("{subdir}/nd{k}.json"));
+                g.put(FileSpec::file(lex_join(&subdir, &format!("nd{k}.json")), format!("\"{tag}\"\n"), 0o644));
+                header.push_str(&format!("import \"nd{k}\" as $nd{k} {{search: \"{sub}\"}};\n"));
+                parts.push(format!("$nd{k}"));
+                exp_mod.push(format!("[\"{tag}\"]"));
+                // same name relative to the cwd / the main program: must not be taken
+                let decoy = lex_join(&lex_join(parent_dir, sub), &format!("nd{k}.json"));
+                if decoy != lex_join(&subdir, &format!("nd{k}.json")) && g.rng.chance(1, 2) {
+                    let t = g.tag(&format!("DECOY-CWD:{decoy}"));
+                    g.put(FileSpec::file(decoy, format!("\"{t}\"\n"), 0o644));
+                }
+            }
+            // a helper module next to it, found relative to the module file
+            let leaf_tag = g.tag(&format!("{subdir}/leaf.jq"));
+            g.put(FileSpec::file(lex_join(&subdir, "leaf.jq"), format!("def leaf: \"{leaf_tag}\";\n"), 0o644));
+            header.push_str(&format!("include \"leaf\" {{search: \"{sub}\"}};\n"));
+            g.put(FileSpec::file(
+                lex_join(&dir, "na.jq"),
+                format!("{header}def who_a: [{}, leaf];\n", parts.join(", ")),
+                0o644,
+            ));
+            // the main program has data imports of its own, relative to its own location
+            let n_main_data = 1 + g.rng.usize(2);
+            let mut mh = String::new();
+            let mut mparts = Vec::new();
+            let mut exp_main = Vec::new();
+            let before = g.rng.chance(1, 2);
+            for k in 0..n_main_data {
+                let tag = g.tag(&format!("main-data-{k}"));
+                g.put(FileSpec::file(lex_join(&lex_join(parent_dir, "mdir"), &format!("md{k}.json")), format!("\"{tag}\" {k}\n"), 0o644));
+                mh.push_str(&format!("import \"md{k}\" as $md{k} {{search: \"mdir\"}};\n"));
+                mparts.push(format!("$md{k}"));
+                exp_main.push(format!("[\"{tag}\",{k}]"));
+            }
+            let inc = "include \"na\";\n";
+            prog = if before { format!("{mh}{inc}[who_a, {}]", mparts.join(", ")) } else { format!("{inc}{mh}[who_a, {}]", mparts.join(", ")) };
+            let expected = format!("[[{},\"{leaf_tag}\"],{}]\n", exp_mod.join(","), exp_main.join(","));
+            directives.push(Directive {
+                kind: "nested".into(),
+                name: expected,
+                meta: String::new(),
+                candidates: vec![],
+                tags: BTreeMap::new(),
+                absolute: false,
+                ident: String::new(),
+            });
         }
         "diamond" => {
             // layers of two modules each; every module of a layer includes both of the next
@@ -686,7 +746,23 @@ fn diamond_expect(case: &Case) -> Option<String> {
 
 pub fn eval(case: &Case, wk: &mut Worker) -> Result<(Option<(String, String)>, History), Harness> {
     let h = wk.run(&case.world())?;
-    let v = if case.scenario == "diamond" {
+    let v = if case.scenario == "nested" {
+        let out = String::from_utf8_lossy(&h.stdout.0).into_owned();
+        let want = &case.directives[0].name;
+        match h.exit {
+            Exit::Exited(0) if &out == want => None,
+            Exit::Hung => Some(("L0".into(), "run hung".into())),
+            Exit::Signaled(s) => Some(("L0".into(), format!("process died with signal {s}"))),
+            Exit::Exited(101) => Some(("L0".into(), "process panicked".into())),
+            ref e => Some((
+                "L1".into(),
+                format!(
+                    "a module's own include/data imports are resolved relative to that module's file and bound in that module only: exit {e:?}, stdout {out:?}, expected {want:?}; stderr {:?}",
+                    String::from_utf8_lossy(&h.stderr.0).chars().take(300).collect::<String>()
+                ),
+            )),
+        }
+    } else if case.scenario == "diamond" {
         let out = String::from_utf8_lossy(&h.stdout.0).into_owned();
         match h.exit {
             Exit::Exited(0) if Some(&out) == diamond_expect(case).as_ref() => judge_loadonce(case, &h),
@@ -735,7 +811,7 @@ fn fingerprint(case: &Case, class: &str) -> BTreeMap<String, String> {
 
 fn shrink_candidates(case: &Case) -> Vec<Case> {
     let mut out = Vec::new();
-    if case.scenario == "cycle" || case.scenario == "diamond" {
+    if case.scenario == "cycle" || case.scenario == "diamond" || case.scenario == "nested" {
         return out;
     }
     // drop a directive (re-rendering the program)
